@@ -39,6 +39,8 @@ def forms(ext):
     fam = family(ext)
     if fam == "c":
         f = ["line", "block", "mblock", "doc", "trail"]
+        if ext in ("rs", "kt", "kts", "swift"):
+            f += ["nestblock"]          # block comments nest in these languages: one comment node, inner closer inside
         if ext == "rs":
             f += ["rsdoc", "rsinner"]
         if ext in ("cs", "swift"):
@@ -171,6 +173,12 @@ def wrap(form, lines, ext, i):
         assert len(lines) == 1
         code = code_line(ext, 90 + i) + "  "
         return [code + op + lines[0]], len(code), [(0, len(code) + len(op))]
+    if form == "nestblock":
+        # the tags sit after the closer of an inner comment (a disabled region holding a commented piece of code)
+        if len(lines) == 1:
+            return ["/* off /* inner */ " + lines[0] + " */"], 0, [(0, 19)]
+        out = ["/* off /* inner */"] + ["   " + l for l in lines] + ["*/"]
+        return out, 0, [(k + 1, 3) for k in range(len(lines))]
     if form == "block":
         if len(lines) == 1:
             return ["/* " + lines[0] + " */"], 0, [(0, 3)]
